@@ -293,6 +293,10 @@ h_begin(const h_cfg *c)
 		if (c->fail_at > 0 && rv == NNG_ENOMEM) {
 			vs_fini();
 			vr_tag("init_enomem");
+			if (at_live_blocks() != 0) {
+				at_report_leaks(10);
+				vr_fail("leak-after-failed-init", "nng_init failed with NNG_ENOMEM but %ld blocks (%ld bytes) stay allocated", at_live_blocks(), at_live_bytes());
+			}
 			return (-1);
 		}
 		vr_fail("harness:nng_init", "nng_init -> %d", rv);
